@@ -55,17 +55,18 @@ def run_static(out, tier, seed):
     nrand = 80 if tier == "quick" else 2000
     progs = [p for p in SK.family_f1(quick=(tier == "quick")) + SK.family_f6() + [SK.random_program(rng, 9000 + i) for i in range(nrand)] if meta_ok(p)]
     opts = {"maxiter": 2, "maxraise": 1, "kinds": ["tuple"], "maxpaths": 8 if tier == "quick" else 40, "seed": seed,
-            "variants": ["meta"], "gen_drive": True, "with_prog": True}
+            "variants": ["meta", "meta_single"], "gen_drive": True, "with_prog": True}
     work = core.scratch("c06s-")
     traces = PC.run_jobs(progs, opts, work)
     cases, skipped = [], 0
     for t in traces:
-        r = t["runs"][0]
-        if r["act_err"] or r["log"] != [e for e in t["ref"]["log"] if e[0] != "bind"] or r["result"] != t["ref"]["result"]:
-            skipped += 1          # not transparent on this path (C01 judges that); the meta stream is not comparable
-            continue
-        cases.append({"id": t["id"], "form": t["form"], "ctx": t["ctx"], "prog": t["prog"], "reflog": t["ref"]["log"],
-                      "merged": r["streams"][0], "result": t["ref"]["result"], "script": t["script"], "pid": t["pid"]})
+        for ri, r in enumerate(t["runs"]):
+            if r["act_err"] or r["log"] != [e for e in t["ref"]["log"] if e[0] != "bind"] or r["result"] != t["ref"]["result"]:
+                skipped += 1          # not transparent on this path (C01 judges that); the meta stream is not comparable
+                continue
+            cases.append({"id": t["id"] * 100 + ri, "form": t["form"], "ctx": t["ctx"], "prog": t["prog"], "reflog": t["ref"]["log"],
+                          "merged": r["streams"][0], "result": t["ref"]["result"], "script": t["script"], "pid": t["pid"],
+                          "only": r["only"]})
     chunks = [cases[i:i + 400] for i in range(0, len(cases), 400)]
 
     def one(ix):
